@@ -61,7 +61,7 @@ def jobs(tier, seed):
             sides = (0, 1) if (tier == "thorough" or fn == "make_undo") else (rnd.randrange(2),)
             for side in sides:
                 n, src = inst(fn, kind, side)
-                js.append(Job(n, f"{desc}; moving {KINDS[kind]}, {'white' if side == 0 else 'black'} to move, any valid position", gen=src, timeout=2400, mem_gb=16,
+                js.append(Job(n, f"{desc}; moving {KINDS[kind]}, {'white' if side == 0 else 'black'} to move, any valid position", gen=src, timeout=2400, mem_gb=16, weight_gb=1.5,
                               checks="functional", witness=False, params={"moving_kind": KINDS[kind], "white_to_move": side == 0}))
     return js
 
